@@ -157,6 +157,13 @@ func (c *Compactor) Compact(ctx context.Context, dstLevel int) (*ltx.FileInfo, e
 
 	pr, pw := io.Pipe()
 	go func() {
+		// A truncated or corrupted input can make the ltx decoder panic; report
+		// it as a compaction error instead of crashing the daemon.
+		defer func() {
+			if r := recover(); r != nil {
+				_ = pw.CloseWithError(fmt.Errorf("ltx compactor: invalid input: %v", r))
+			}
+		}()
 		comp, err := ltx.NewCompactor(pw, rdrs)
 		if err != nil {
 			_ = pw.CloseWithError(fmt.Errorf("new ltx compactor: %w", err))
